@@ -173,7 +173,7 @@ def encode_contrasts(  # pylint: disable=dangerous-default-value  # always repla
     # Perform dummy encoding
     if output in ("narwhals", "pandas", "numpy"):
         categories = list(data.cat.categories)
-        encoded = pandas.get_dummies(data)
+        encoded = pandas.get_dummies(data, dtype=bool)
     elif output == "sparse":
         categories, encoded = categorical_encode_series_to_sparse_csc_matrix(
             data,
